@@ -156,25 +156,20 @@ def writer_finalisation(ctx, rid):
 
     # ---- merge_bams ----------------------------------------------------------------------
     f = ctx.fn(BAMFUNC, 'merge_bams')
-    cfg = func_cfg(ix, f, exceptions=False)
-    paths = cfg.paths()
-    ctx.counters['paths_enumerated'] += len(paths)
+    # feasible paths (constants assigned on the path are followed: a flag initialised False stays False until it is reassigned)
+    from ..util import explore
+    from ..cfg import UNK
+    rs = explore(f.body, lambda e: UNK)
+    ctx.counters['paths_enumerated'] += len(rs)
     n = 0
     bad = []
-    for p, _ in paths:
-        if cfg.nodes[p[-1][0]].info not in ('fall', 'return'):
+    for r in rs:
+        if r['kind'] not in ('fall', 'return'):
             continue
         n += 1
-        calls = path_calls(cfg, p)
-        full = [c[0] for c in calls]
+        full = [c.split('(')[0] for c in r['calls']]
         indexed = 'pysam.index' in full
-        moved_index = False
-        for x, node, _ in calls:
-            if last_name(x) == 'move':
-                for c in walk_no_nested(node.ast):
-                    if isinstance(c, ast.Call) and last_name(dotted(c.func) or '') == 'move' and len(c.args) == 2 \
-                            and '.bai' in src(c.args[0]) and '.bai' in src(c.args[1]):
-                        moved_index = True
+        moved_index = any(c.split('(')[0].split('.')[-1] == 'move' and c.count('.bai') >= 2 for c in r['calls'])
         merged = any(last_name(x) == 'merge' or (x == 'os.system') for x in full) or any(last_name(x) == 'move' for x in full)
         if not (merged and (indexed or moved_index)):
             bad.append(full)
